@@ -2,6 +2,7 @@ import Mkdb.Driver.LRU
 import Mkdb.Driver.Page
 import Mkdb.Driver.Tuple
 import Mkdb.Driver.Sql
+import Mkdb.Driver.Console
 open Mkdb.Driver
 
 def main (args : List String) : IO UInt32 := do
@@ -16,4 +17,6 @@ def main (args : List String) : IO UInt32 := do
   | ["judge", "tuple"] => judgeLoop stdin stdout ({} : Tuple.J) Tuple.judgeLine; return 0
   | ["model", "sql"] => modelLoop stdin stdout () Sql.stepLine; return 0
   | ["judge", "sql"] => judgeLoop stdin stdout ({} : Sql.J) Sql.judgeLine; return 0
+  | ["model", "console"] => modelLoop stdin stdout () Console.stepLine; return 0
+  | ["judge", "console"] => judgeLoop stdin stdout ({} : Console.J) Console.judgeLine; return 0
   | _ => IO.eprintln "usage: mkdbdrv model|judge <proto>"; return 2
